@@ -38,3 +38,29 @@ def measure_stmt_queries(tier):
                'exec(MeasureStatement) on a %s whose ids differ from positions, statement position symbolic: every measured element marked in both flag '
                'stores with its outcome recorded, nothing else marked, reuse refused with a located Runtime error' % ('qubit[2]' if k else 'qubit'),
                tier, timeout=900, fp='exact', defines=[]) for k in (0, 1)]
+
+
+CLASS_ENTRIES = ['harness_vtable', 'harness_class_order', 'harness_class_chain']
+
+
+def cq(name, entry, params, desc, tier):
+    return eq(name, 'E2_classes.cpp', entry, CLASS_ENTRIES, params, desc, tier, fp='exact', defines=[], unwind=24, timeout=900)
+
+
+def vtable_queries(tier):
+    return [cq('vtable overloads=%d' % k, 'harness_vtable', [k],
+               'buildClassTable on a class with %d virtual overload(s) of one method name (positions symbolic): every dispatch-table entry is '
+               'dereferenced and must be live storage of a method of this class (no read of freed memory)' % k, tier)
+            for k in ((1, 2, 3) if tier != 'quick' else (2, 3))]
+
+
+def class_order_queries(tier):
+    qs = [cq('class-order %s' % ('base-first' if o == 0 else 'derived-first'), 'harness_class_order', [o],
+             'buildClassTable on {A{v; virtual m()}, B extends A{w}} declared %s: base link, inherited layout [v,w] and inherited dispatch entry'
+             % ('A then B' if o == 0 else 'B then A'), tier) for o in (0, 1)]
+    names = ['ABC', 'ACB', 'BAC', 'BCA', 'CAB', 'CBA']
+    for o in (range(6) if tier != 'quick' else (3, 5)):
+        qs.append(cq('class-chain order=%s' % names[o], 'harness_class_chain', [o],
+                     'buildClassTable on the chain C extends B extends A (one field each, B overrides A.m) declared in the order %s: layouts '
+                     '[v],[v,w],[v,w,u] with slots 0,1,2 and m() dispatched to A, B, B' % names[o], tier))
+    return qs
